@@ -142,6 +142,9 @@ func H_C05_exit() {
 	if math.LegacyNewDecFromInt(balance).GT(exact) {
 		nd.Tag("balance-rounded-up")
 	}
+	if av0.TotalDelegationSharesWithDenom(Denoms[0]).TruncateInt().IsZero() {
+		nd.Tag("tds-below-one") // GetDelegationSharesFromTokens prices shares 1:1 when the validator's delegator shares truncate to zero
+	}
 	tagLiveness(e, 0)
 	tagPoolShort(e, 0, 0)
 	hintUnitPrices(st)
